@@ -402,11 +402,21 @@ def drawing_record(backend, tl, doc, opts, data, kind):
                          "text": b["text"] or "", "bg": hx(b["bg"]), "border": hx(b["border"]), "textrgb": hx(b["textrgb"])} for b in P["boxes"]]
     # ticks of the scale (public API) paired with the drawn ticks
     tk = []
+    try:
+        fmt = scale.tickFormat()
+    except Exception:
+        fmt = None
     for t in ticks_src:
         if kind == "linear":
             tk.append({"v3": int(round(Fraction(float(t)) * 1000))})
         else:
-            tk.append({"t": tproj(t), "civ": [t.year, t.month, t.day, t.isoweekday() % 7, t.hour, t.minute, t.second]})
+            # "fmt": the formatted value of this tick's position, by the scale's own formatter (one call per tick)
+            try:
+                f = fmt(t)
+                f = f if isinstance(f, str) else "<not a string>"
+            except Exception:
+                f = "<formatter failed>"
+            tk.append({"t": tproj(t), "civ": [t.year, t.month, t.day, t.isoweekday() % 7, t.hour, t.minute, t.second], "fmt": f})
     rec["tickvals"] = tk
     if kind == "linear":
         step = (float(ticks_src[1]) - float(ticks_src[0])) if len(ticks_src) >= 2 else 1.0
